@@ -10,6 +10,10 @@ import (
 	"github.com/risor-io/risor/op"
 )
 
+// maxRepeatLen bounds the result of repeat: bytes.Repeat panics on a negative
+// count and on a result it cannot allocate.
+const maxRepeatLen = 1 << 30
+
 type ByteSlice struct {
 	*base
 	value []byte
@@ -436,6 +440,12 @@ func (b *ByteSlice) Repeat(obj Object) Object {
 	count, err := AsInt(obj)
 	if err != nil {
 		return err
+	}
+	if count < 0 {
+		return Errorf("value error: byte_slice.repeat count must not be negative")
+	}
+	if len(b.value) > 0 && count > int64(maxRepeatLen/len(b.value)) {
+		return Errorf("value error: byte_slice.repeat result is too large")
 	}
 	return NewByteSlice(bytes.Repeat(b.value, int(count)))
 }
